@@ -11,6 +11,10 @@ import (
 	"time"
 )
 
+// WorkerExe, when set, is the executable started for workers instead of the running binary (used to run
+// cases in a differently instrumented build of the same program).
+var WorkerExe string
+
 // ConfirmRuns is how many times a stuck case is re-run alone before it is believed.
 var ConfirmRuns = 2
 
@@ -55,6 +59,9 @@ func RunSharded(r *Run, n int, workerArgs []string, caseTimeout time.Duration, m
 	self, err := os.Executable()
 	if err != nil {
 		panic(err)
+	}
+	if WorkerExe != "" {
+		self = WorkerExe
 	}
 	workers := Workers()
 	if workers > n {
